@@ -1,4 +1,5 @@
 """Shared machinery of the /verif checks: builds, caches, evidence, violation reports."""
+import glob
 import hashlib
 import json
 import os
@@ -96,11 +97,18 @@ def coq_source_gate():
     return bad
 
 
-def coq_build():
-    """Full .vo build of the development (make decides what is stale)."""
+def coq_build(prop_file=None):
+    """Full .vo build (make decides what is stale) of the models, the proofs, the generated Current/ files and of the
+    statement file of the property being checked - not of the other properties' statement files, whose `*_current`
+    obligations may fail on this tree without this property being concerned."""
     t0 = time.time()
     sh("./regen.sh", cwd=COQ, check=True)
-    rc, out = sh("timeout 1500 make -j16", cwd=COQ, timeout=1600)
+    targets = "all"
+    if prop_file:
+        vs = sorted(glob.glob(os.path.join(COQ, "Model", "*.v")) + glob.glob(os.path.join(COQ, "Proofs", "*.v")) +
+                    glob.glob(os.path.join(COQ, "Current", "*.v")))
+        targets = " ".join(os.path.relpath(v, COQ) + "o" for v in vs) + " Props/%so" % prop_file
+    rc, out = sh("timeout 1500 make -j16 %s" % targets, cwd=COQ, timeout=1600)
     return rc == 0, out, time.time() - t0
 
 
